@@ -140,6 +140,37 @@ def sized_programs(seed):
 SIZED_EXTRA_CFGS = [(0, 1, 4, "plru", 2), (1, 0, 4, "plru", 1), (0, 0, 8, "plru", 0), (0, 1, 4, "lru", 2), (0, 0, 3, "lru", 1)]
 
 
+def odd_target_programs(seed):
+    """Control transfers whose target is 2 mod 4 or odd (numeric branch/jal offsets, jalr through odd registers)."""
+    r1, r2, r3 = alpha.regs_for_seed(seed)
+    A = [("beq", 0, 0, 0, 6), ("jal", 27, 0, 0, 10), ("jalr", 0, r2, 0, -3), ("addi", r1, r1, 0, 1), ("bne", 0, r1, 0, -6), ("jal", 0, 0, 0, -2), ("jalr", 26, r1, 0, 6)]
+    out = []
+    for L in (1, 2, 3):
+        for idx in itertools.product(range(len(A)), repeat=L):
+            out.append([A[i] for i in idx])
+    return out
+
+
+def odd_target_shard(shard):
+    seed, part, parts = shard
+    p = Partial()
+    st = alpha.init_states(seed, 1)[0]
+    cfgs = icfgs(seed, False)
+    for i, prog in enumerate(odd_target_programs(seed)):
+        if i % parts != part:
+            continue
+        for ci, cfg in enumerate(cfgs):
+            for mode in (rv.SINGLE, rv.FIVE):
+                base, ref, bad = check_icache(prog, st["regs"], st["words"], cfg, mode, 24 if mode == rv.SINGLE else 192)
+                p.evaluations += 1
+                p.nontrivial += 1
+                p.counters["control-transfer-to-unaligned-target"] += 1
+                for f, d in bad:
+                    p.violation(dict(oracle="icache", field=f), case_of(prog, st["regs"], st["words"], cfg, mode, 24 if mode == rv.SINGLE else 192),
+                                f"[{rv.prog_text(prog)}] icache i{cfg[0]}b{cfg[1]}w{cfg[2]} {cfg[3]} pen={cfg[4]} {mode}: {d}", size=(len(prog), i, ci))
+    return p
+
+
 def sized_shard(shard):
     seed, thorough, part, parts = shard
     states = alpha.init_states(seed, 2)
@@ -174,7 +205,8 @@ PB = "lui x6, 1\naddi x7, x0, 7\njal x1, 16\naddi x8, x0, 8\naddi x9, x0, 9\nadd
 PC = ""
 PD = ("addi x25, x0, 3\nloop: jal x27, f\njal x27, g\naddi x25, x25, -1\nbne x25, x0, loop\njal x0, end\nf: addi x6, x6, 1\njalr x0, x27, 0\n"
       "g: addi x7, x7, 1\njalr x0, x27, 0\nend: addi x8, x0, 1\n")
-TEXTS = [PA, PB, PC, PD]
+PE = "addi x1, x0, 1\naddi x2, x0\n"  # does not assemble
+TEXTS = [PA, PB, PC, PD, PE]
 
 
 def snapshot(sim):
@@ -200,17 +232,37 @@ def reload_case(cfg, mode, xi, yi, k, maxsteps=90):
     def fresh():
         return RiscvSimulation(mode=mode, instruction_cache=rv.cache_opts(ib, bb, ways, "wb", policy, pen))
 
+    from architecture_simulator.isa.parser_exceptions import ParserException
+
+    def load(s, text):
+        try:
+            s.load_program(text)
+            return True
+        except ParserException:
+            return False
+
     sim = fresh()
-    sim.load_program(TEXTS[xi])
+    plain = RiscvSimulation(mode=mode)  # the same history on a simulation without an instruction cache
+    if not load(sim, TEXTS[xi]) & load(plain, TEXTS[xi]):
+        k = 0
     n = 0
     while n < k and not sim.is_done():
         sim.step()
+        plain.step()
         n += 1
     if n < k:
         return None, False  # X finished earlier: covered by a smaller k
     warmed = int(sim.get_instruction_cache_stats()["accesses"]) > 0
-    sim.load_program(TEXTS[yi])
+    ok_c, ok_p = load(sim, TEXTS[yi]), load(plain, TEXTS[yi])
     bad = []
+    if ok_c != ok_p or sim.get_instruction_memory_entries() != plain.get_instruction_memory_entries() or sim.has_instructions() != plain.has_instructions():
+        bad.append(("reload-differs-from-uncached", f"after the reload (accepted: cached {ok_c}, uncached {ok_p}) the instruction listing / has_instructions differ from the uncached simulation"))
+    if not ok_c:
+        # a rejected program leaves no instructions behind; nothing more to run
+        st = sim.get_instruction_cache_stats()
+        if sim.has_instructions() or any(b[0] != "0" for s_ in _cache_text(sim) for b in s_[1]) or st["accesses"] != "0":
+            bad.append(("reload-rejected-program-leaves-state", "after a rejected load the cached instruction memory is not empty"))
+        return bad, warmed
     st = sim.get_instruction_cache_stats()
     ct = _cache_text(sim)
     if any(b[0] != "0" for s_ in ct for b in s_[1]):
@@ -304,7 +356,10 @@ def run(ctx):
     part = pmap(sized_shard, [(seed, thorough, i, 32) for i in range(32)])
     ctx.space("icache-sized-loops-and-calls", part, t0, programs=len(sized_programs(seed)), cache_configs=len(icfgs(seed, True)))
     t0 = time.time()
+    part = pmap(odd_target_shard, [(seed, i, 32) for i in range(32)])
+    ctx.space("icache-unaligned-targets", part, t0, programs=len(odd_target_programs(seed)))
+    t0 = time.time()
     rc = [(0, 0, 1, "lru", 2), (1, 0, 1, "lru", 0), (0, 1, 2, "plru", 3), (1, 1, 2, "lru", 1), (0, 0, 4, "plru", 1), (0, 1, 4, "plru", 0)] + ([(0, 2, 1, "lru", 2), (1, 0, 4, "plru", 2)] if thorough else [])
     part = pmap(reload_shard, [(c, m, 14) for c in rc for m in (rv.SINGLE, rv.FIVE)])
     ctx.space("icache-reload", part, t0, histories="load X; k steps (k = 0..14); load Y; run to completion, X, Y in {P_a, P_b, empty}")
-    ctx.require("icache-eviction", "icache-hit", "icache-miss", "icache-loop-eviction", "reload-over-warm-cache", "fetch-stream-distinguishes-plru-from-lru")
+    ctx.require("icache-eviction", "icache-hit", "icache-miss", "icache-loop-eviction", "reload-over-warm-cache", "fetch-stream-distinguishes-plru-from-lru", "control-transfer-to-unaligned-target")
